@@ -18,6 +18,9 @@ type SourcePlan struct {
 	Conc    int    `json:"conc"`
 	PollMs  int    `json:"poll_ms"`
 	InitLen int    `json:"init_len"` // blocks 0..InitLen-1 exist at start
+	// LagMax > 0: every replica URL but the first may be up to LagMax blocks
+	// behind (drawn per request while faults are on)
+	LagMax int `json:"lag_max,omitempty"`
 }
 
 // EventSpec is an event the content generator may emit (declared or decoy).
@@ -72,6 +75,9 @@ type FaultPlan struct {
 	Stall         bool `json:"stall"`      // allow HTTP stalls (timeouts)
 	LostAck       bool `json:"lost_ack"`   // allow drop-after on PG
 	HTTPKinds     int  `json:"http_kinds"` // bitmask of enabled HTTP fault kinds
+	// EarlyRefuseEvery > 0: every n-th HTTP request is refused before its
+	// body is read (until the heal point)
+	EarlyRefuseEvery int `json:"early_refuse_every,omitempty"`
 	// Reconfig: a restart may come back with another batch size and
 	// concurrency (the operator edited the configuration while it was down)
 	Reconfig bool `json:"reconfig,omitempty"`
